@@ -163,6 +163,11 @@ class Verdict:
         cov["model_drift"] = self.drift
         write_json(os.path.join(EVID, self.prop + ".json"), evidence)
         if self.violations:
+            tags = {}
+            for rec, _p in self.violations:
+                tkey = "%s/%s" % (rec.get("tag", ""), rec.get("family", rec.get("ty", "")))
+                tags[tkey] = tags.get(tkey, 0) + 1
+            print("violations by tag/family: %s" % json.dumps(tags, sort_keys=True))
             print("RESULT property=%s violations=%d" % (self.prop, len(self.violations)))
             return EXIT_VIOLATION
         print("RESULT property=%s ok" % self.prop)
